@@ -89,7 +89,7 @@ def _case(draw):
         "titles": draw(st.sampled_from([False, False, True])),
         # the full handler list (ZIP, scripts, PYG, TAL, URL type rewriter ...), and directories at or below a top-level
         # directory with a one-character name (where the type rewriter reads '/1/foo' as type 1 + '/foo')
-        "fulllist": draw(st.booleans()),
+        "fulllist": draw(st.booleans()), "again": draw(st.sampled_from([False, False, True])),
         "top": draw(st.sampled_from(["sub0", "sub0", "1", "0", "h"])),
     }
 
@@ -192,8 +192,8 @@ class _Shims:
         os.stat, os.listdir = self.o_stat, self.o_listdir
 
 
-def _config(root, handler, full=False):
-    over = {"handlers.dir.DirHandler::cachetime": "0"}
+def _config(root, handler, full=False, cache=False):
+    over = {"handlers.dir.DirHandler::cachetime": "180" if cache else "0"}
     cfg = drive.make_config(root, "full" if full else "shipped", **over)
     if handler == "dir":
         h = cfg.get("handlers.HandlerMultiplexer", "handlers").replace("UMN.UMNDirHandler", "dir.DirHandler")
@@ -205,14 +205,17 @@ def _listing(case, with_faults):
     spec, dirsel, shim_stat, phantoms = _spec(case, with_faults)
     d, root = world.build(spec)
     try:
-        cfg = _config(root, case["handler"], case.get("fulllist", False))
+        cfg = _config(root, case["handler"], case.get("fulllist", False), bool(case.get("again")))
         form = case["form"]
         req = clients.encode(form, world.b(dirsel))
-        if with_faults:
-            with _Shims(root, dirsel, shim_stat, phantoms):
+        # 'again': with the directory cache on, the listing is requested twice - the second request finds the cache the
+        # first one wrote and must succeed like the first (whatever it looks at to decide whether the cache is still good)
+        for _ in range(2 if case.get("again") else 1):
+            if with_faults:
+                with _Shims(root, dirsel, shim_stat, phantoms):
+                    r = drive.serve(cfg, req, tls=clients.FORMS[form][0])
+            else:
                 r = drive.serve(cfg, req, tls=clients.FORMS[form][0])
-        else:
-            r = drive.serve(cfg, req, tls=clients.FORMS[form][0])
         return r, dirsel
     finally:
         world.rmtree(d)
@@ -227,7 +230,7 @@ def check_case(case, ctx):
         i = allnames.index(nm)
         pos = "first" if i == 0 else ("last" if i == len(allnames) - 1 else "middle")
         ctx.label("fault:" + k, "pos:" + pos)
-    ctx.label("form:" + form, "handler:" + case["handler"], "nfaults:%d" % len(case["faults"]))
+    ctx.label("form:" + form, "handler:" + case["handler"], "nfaults:%d" % len(case["faults"]), "second-listing-from-cache:%s" % bool(case.get("again")))
     ctx.nontriv()
     ctx.sample(cls=ksig)
 
